@@ -47,6 +47,7 @@ const (
 	linkLocalUnicast
 	ianaReservedForFutureUse
 	ianaReservedMulticast
+	loopback
 )
 
 var reservedNetworks []*net.IPNet
@@ -111,6 +112,9 @@ func init() {
 		linkLocalUnicast:                     {"fe80::/10", "169.254.0.0/16"}, // this range is covered by 	ip.IsLinkLocalUnicast(), which is in turn called by  net.IP.IsGlobalUnicast(ip)
 		ianaReservedForFutureUse:             {"255.0.0.0/8", "254.0.0.0/8", "253.0.0.0/8", "252.0.0.0/8", "251.0.0.0/8", "250.0.0.0/8", "249.0.0.0/8", "248.0.0.0/8", "247.0.0.0/8", "246.0.0.0/8", "245.0.0.0/8", "244.0.0.0/8", "243.0.0.0/8", "242.0.0.0/8", "241.0.0.0/8", "240.0.0.0/8"},
 		ianaReservedMulticast:                {"239.0.0.0/8", "238.0.0.0/8", "237.0.0.0/8", "236.0.0.0/8", "235.0.0.0/8", "234.0.0.0/8", "233.0.0.0/8", "232.0.0.0/8", "231.0.0.0/8", "230.0.0.0/8", "229.0.0.0/8", "228.0.0.0/8", "227.0.0.0/8", "226.0.0.0/8", "225.0.0.0/8", "224.0.0.0/8", "ff00::/8"}, // this range is covered by ip.IsMulticast() call, which is in turn called by  net.IP.IsGlobalUnicast(ip)
+		// hosts in this range are covered by ip.IsLoopback(), called by net.IP.IsGlobalUnicast(ip); it is
+		// listed so that networks containing it (e.g. 126.0.0.0/7) are reported as intersecting
+		loopback: {"127.0.0.0/8", "::1/128"},
 	}
 
 	for _, netList := range networks {
